@@ -798,6 +798,9 @@ class PathController:
         if not vals:
             raise PathEnd('path condition became infeasible')
         if len(vals) > self.concretize_limit:
+            import os
+            if os.environ.get('IRSYM_DEBUG'):
+                import traceback; traceback.print_stack(limit=8); print('value:', S.show(v, 5))
             raise Unsupported('symbolic integer has more than %d feasible values at %s' % (self.concretize_limit, it.where()))
         vals.sort()
         self.pos += 1
